@@ -51,7 +51,8 @@ def sp_list(s):
 
 
 def present(order, rows, axes):
-    co = {n: torch.tensor([POOL[r - 1][n] for r in rows], dtype=torch.float32) for n in order}
+    # a name "<v>_other" carries the values of v under another name (a variable the model does not know)
+    co = {n: torch.tensor([POOL[r - 1][n[:-6] if n.endswith("_other") else n] for r in rows], dtype=torch.float32) for n in order}
     p = Points.from_coordinates(co)
     if axes == 2:
         t = p.as_tensor.reshape(2, len(rows) // 2, -1)
@@ -99,6 +100,27 @@ def run_one(s):
                     ref = torch.cat([o.as_tensor for o in outs], dim=-1)
             rec["ref"] = [fxrow(ref[i]) for i in range(len(pr["rows"]))]
         tr["pres"].append(rec)
+    # history on ONE Points object: evaluated, its content replaced in place (a preallocated input buffer), evaluated again;
+    # the second output is recorded as a presentation of the new rows (outputs depend on the current content only)
+    names = [n for n, _ in tr["ins"]]
+    ra, rb = [1, 2, 3, 4], [4, 2, 6, 1]
+    buf = present(names, ra, 1)
+    rec = {"order": names, "rows": rb, "axes": 1, "drop": "", "exc": "", "obs": [], "parts_ok": True, "outsp": []}
+
+    def reuse():
+        with torch.no_grad():
+            model(buf)
+            buf.as_tensor.copy_(present(names, rb, 1).as_tensor)
+            return model(buf)
+    r = watched(reuse)
+    if r[0] != "ok":
+        rec["exc"] = r[1] if len(r) > 1 else "hang"
+    else:
+        out = r[1]
+        rec["outsp"] = sp_list(out.space)
+        flat = out.as_tensor.reshape(len(rb), -1)
+        rec["obs"] = [{"rid": rid, "out": fxrow(flat[i])} for i, rid in enumerate(rb)]
+    tr["pres"].append(rec)
     return tr
 
 
